@@ -83,6 +83,36 @@ let rest_after (line:string) (k:int) : string =
   let i = skip 0 k in String.sub line i (n - i)
 let lines_of (s:string) : n list list =
   List.map (fun l -> cps_of (String.trim l)) (String.split_on_char '/' s)
+(* ---- LLSD flavours ---- *)
+let show_plval (v : plval) = match v with
+  | LS s -> "s" ^ show_str s
+  | LI z -> "i" ^ string_of_int (int_of_z z)
+  | LB b -> "b" ^ hex_of_bytes b
+  | LU u -> "u" ^ hex_of_n u
+  | LX x -> "x" ^ show_str x
+let parse_plval (w:string) : plval =
+  let w = String.trim w in
+  let body = String.sub w 1 (String.length w - 1) in
+  match w.[0] with
+  | 's' -> LS (cps_of body)
+  | 'i' -> LI (z_of_int (int_of_string body))
+  | 'b' -> LB (bytes_of_hex body)
+  | 'u' -> LU (n_of_hex body)
+  | 'x' -> LX (cps_of body)
+  | _ -> failwith "plval"
+let split_kv (e:string) = let e = String.trim e in let i = String.index e '=' in
+  (cps_of (String.sub e 0 i), String.sub e (i + 1) (String.length e - i - 1))
+let parse_entry (e:string) : (n list * lval) =
+  let (k, v) = split_kv e in
+  if String.length v >= 2 && v.[0] = 'm' then
+    let inner = String.trim (String.sub v 2 (String.length v - 3)) in
+    let es = if inner = "" then [] else String.split_on_char '!' inner in
+    (k, LM (List.map (fun e2 -> let (k2, v2) = split_kv e2 in (k2, parse_plval v2)) es))
+  else (k, LP (parse_plval v))
+let show_entry ((k, l) : (n list * lval)) = match l with
+  | LP v -> show_str k ^ "=" ^ show_plval v
+  | LM m -> show_str k ^ "=m[" ^ String.concat " ! " (List.map (fun (k2, v2) -> show_str k2 ^ "=" ^ show_plval v2) m) ^ "]"
+let flavor_of s = if s = "legacy" then Legacy else Ais
 let () =
   try
     while true do
@@ -143,6 +173,17 @@ let () =
         (match from_lines sch (lines_of (rest_after line 2)) with
          | None -> print_endline "ERR"
          | Some (r, rem) -> Printf.printf "%s # %d\n" (String.concat " ; " (List.map show_fval r)) (List.length rem))
+      | "LW" :: which :: fl :: _ ->
+        let sch = List.nth live_llsd_schemas (int_of_string which) in
+        let r = List.map parse_fval (String.split_on_char ';' (rest_after line 3)) in
+        Printf.printf "dom=%b %s\n" (dom_llsd (flavor_of fl) sch r) (String.concat " ; " (List.map show_entry (to_llsd (flavor_of fl) sch r)))
+      | "LR" :: which :: fl :: _ ->
+        let sch = List.nth live_llsd_schemas (int_of_string which) in
+        let txt = String.trim (rest_after line 3) in
+        let d = if txt = "" then [] else List.map parse_entry (String.split_on_char ';' txt) in
+        (match from_llsd (flavor_of fl) sch d with
+         | None -> print_endline "ERR"
+         | Some r -> print_endline (String.concat " ; " (List.map show_fval r)))
       | ["I"; z] -> let t = int_to_text (z_of_int (int_of_string z)) in
         Printf.printf "%s %s\n" (show_str t) (match int_of_text t with Some r -> string_of_int (int_of_z r) | None -> "ERR")
       | ["U"; h] -> let t = uuid_to_text (n_of_hex h) in
